@@ -78,6 +78,20 @@ def _t1(ctx, P):
                 ctx.report("T1", fi, f"{q}({p}) <- {info['where']}: {info['construct']}",
                            f"argument `{p}` of {q} can be modified in place: {info['desc']} at {info['where']}:{info['line']} `{info['construct']}`", path=[q] + (info.get("via") or []))
     ctx.ok("T1", f"{n} parameters of {len(present)} public entry points", "no in-place writer reaches a caller-owned object")
+    # the array kernels (the functions wrapped as grid ufuncs and the helpers they call): xarray.apply_ufunc hands them the
+    # caller's buffer itself when nothing was padded (zero-width shifts), so a kernel that writes into a parameter - `out=` of a
+    # numpy function, an item store, an augmented assignment - overwrites the user's data.  (numba kernels write their declared
+    # output parameter only: that one is allocated by the wrapper.)
+    k = 0
+    for q, fi in P.functions.items():
+        if fi.module != "gridops":
+            continue
+        k += 1
+        mut = own.mutated_params(q)
+        for pn, info in mut.items():
+            ctx.report("T1", fi, f"kernel {q}({pn}): {info['construct']}", f"the kernel {q} writes into its parameter `{pn}` ({info['desc']} at line {info['line']}: `{info['construct']}`): for shifts that need no padding this is the caller's own array")
+    ctx.ok("T1", f"{k} array kernels and kernel helpers in gridops", "none writes into a parameter")
+    ctx.floor("T1", "kernels scanned", k, 30)
     # every mutator site of the package, for the record
     sites = 0
     for q, fi in P.functions.items():
